@@ -254,6 +254,38 @@ def mk_ser(mp, d):
     raise ValueError(k)
 
 
+def poly_tokens(ts):
+    """`<k> c1 n1 ... ck nk` for the driver ops polysum / polysumq / polyddiff (lean/MpModel/DrvCalcSerX.lean)"""
+    return "%d " % len(ts) + " ".join("%s %d" % (rtok(c), int(n)) for c, n in ts)
+
+
+def lin_tokens(lin):
+    """`<m> c1 <Ser1> ... cm <Serm>` for the driver ops linterm / lintail"""
+    return "%d " % len(lin) + " ".join("%s %s" % (rtok(c), ser_tokens(d)) for c, d in lin)
+
+
+def mk_shifted_poly(mp, ts, s):
+    """k -> P(k - s) for the term list ts of P (the shift keeps the evaluation well conditioned on ranges far from 0);
+    constants converted at call time"""
+    P = mk_fam(mp, {"fam": "poly", "ts": ts})
+    s = int(s)
+    if s == 0:
+        return P
+    return lambda x: P(x - s)
+
+
+def mk_lin(mp, lin):
+    """k -> sum_j c_j * term_j(k) for members of the series families (all with the same start index)"""
+    parts = [(mk_const(mp, c), mk_ser(mp, d)) for c, d in lin]
+
+    def f(k):
+        s = mp.zero
+        for c, g in parts:
+            s = s + c() * g(k)
+        return s
+    return f
+
+
 def prd_tokens(d):
     k = d["prd"]
     return "ratio %d %d" % (d["a"], d["b"]) if k == "ratio" else k
@@ -308,8 +340,8 @@ def _sample_terms(mp, f, start, n=4):
 @kind("nsum")
 def w_nsum(mp, t):
     mp.prec = int(t["prec"])
-    sers = [mk_ser(mp, d) for d in t["sers"]]
-    starts = [ser_start(d) for d in t["sers"]]
+    sers = [mk_ser(mp, d) for d in t.get("sers", [])]
+    starts = [ser_start(d) for d in t.get("sers", [])]
     shape = t["shape"]
     kw = {}
     if t.get("method"):
@@ -349,6 +381,14 @@ def w_nsum(mp, t):
     elif shape == "sumap":
         f0 = sers[0]
         v = mp.sumap(f0, [starts[0], inf])
+    elif shape == "sumem_poly":     # polynomial summand P(k - s) over the finite range [a, b]
+        f0 = mk_shifted_poly(mp, t["poly"], t.get("s", 0))
+        v = mp.sumem(f0, [int(t["a"]), int(t["b"])])
+        return {"v": enc_num(mp, v), "prec_after": mp.prec, "terms": [_sample_terms(mp, f0, int(t["a"]))]}
+    elif shape == "sumem_lin":      # tail [a, inf) of a rational linear combination of series with closed forms
+        f0 = mk_lin(mp, t["lin"])
+        v = mp.sumem(f0, [int(t["a"]), inf])
+        return {"v": enc_num(mp, v), "prec_after": mp.prec, "terms": [_sample_terms(mp, f0, int(t["a"]))]}
     else:
         raise ValueError(shape)
     out = {"v": enc_num(mp, v), "prec_after": mp.prec}
@@ -483,6 +523,8 @@ def ode_tokens(d):
         return "osc %s %s %s %s" % (rtok(d["w"]), rtok(d["x0"]), rtok(d["c0"]), rtok(d["s0"]))
     if k == "riccati":
         return "riccati %s %s" % (rtok(d["x0"]), rtok(d["y0"]))
+    if k == "ricx":      # decided by the driver op `odevalx` (lean/MpModel/DrvCalcOdeX.lean)
+        return "ricx %s %s %s" % (rtok(d["c"]), rtok(d["x0"]), rtok(d["y0"]))
     raise ValueError(k)
 
 
@@ -503,6 +545,12 @@ def mk_ode(mp, d, vector_form=False):
         if vector_form:
             return (lambda x, y: [-y[0] * y[0]]), x0, [y0]
         return (lambda x, y: -y * y), x0, y0
+    if k == "ricx":      # y' = -2 (x - c) y^2, y(x0) = y0 > 0, c <= x0:  y = 1/(1/y0 + (x-c)^2 - (x0-c)^2)
+        c = mk_const(mp, d["c"])
+        y0 = mk_const(mp, d["y0"])()
+        if vector_form:
+            return (lambda x, y: [-2 * (x - c()) * y[0] * y[0]]), x0, [y0]
+        return (lambda x, y: -2 * (x - c()) * y * y), x0, y0
     raise ValueError(k)
 
 
@@ -548,6 +596,8 @@ def w_odefun(mp, t):
     cv = ode_closure(f)
     scout_b = [enc_num(mp, b)["re"] for b in cv["series_boundaries"]]
     workprec = int(cv["workprec"])
+    degree_used = int(cv["degree"]) if "degree" in cv else None
+    tol_prec_used = int(cv["tol_prec"]) if "tol_prec" in cv else None
     # resolve queries
     qs = []
     for xs, qp in t["queries"]:
@@ -576,7 +626,7 @@ def w_odefun(mp, t):
         hist.append({"vals": vals, "boundaries": [enc_num(mp, b)["re"] for b in cv["series_boundaries"]],
                      "ndata": len(cv["series_data"])})
     return {"scout_boundaries": scout_b, "workprec": workprec, "queries": [[x, qp] for x, qp in qs], "hist": hist,
-            "prec_after": mp.prec}
+            "prec_after": mp.prec, "degree_used": degree_used, "tol_prec_used": tol_prec_used}
 
 
 # ---- C36: chebyfit / fourier / fourierval -----------------------------------------------------------
